@@ -1,4 +1,5 @@
 import Typegen.ProjectSpec
+import Typegen.Walker
 import Typegen.TablesExpected
 /-! # C12 — one correctly named, correctly subscribed listener per emitted event -/
 namespace TG.C12
@@ -71,6 +72,32 @@ theorem C12_names_exact (p : Project) (n : Str) :
   show n ∈ (List.foldl dedupStep [] _).map (·.name) ↔ _
   rw [dedup_names]
   simp
+
+/-- **the walker is exact on the documented placements**: the event names collected from a file are the syntactic
+    occurrences `An.occSs` of `emit` / `emit_to` calls (string-literal name, receiver recognised by `isEmitter`) in every
+    top-level function — as a statement, as the initialiser of a `let` of any pattern, under `?` / `.await`, as receiver or
+    argument of a method call, inside blocks, `if`, `match` and loops at any nesting — in source order, and nothing else.
+    The symbol table threaded through the walk has no influence on *which* events are found. -/
+theorem C12_walker_exact (file : Str) (items : List Pj.Item) :
+    (fileEvents file items).map (·.name) = (fnItems items).flatMap fun f => occSs f.body :=
+  fileEvents_names file items
+
+/-- hence the listeners' names are exactly the documented occurrences in the selected files -/
+theorem C12_names_are_occurrences (p : Project) (n : Str) :
+    n ∈ (analyze p).events.map (·.name) ↔
+    n ∈ (sortedFiles (p.files.filter (fileSelected p.absRoot))).flatMap fun f => (fnItems f.items).flatMap fun fn => occSs fn.body := by
+  rw [C12_names_exact]
+  simp only [List.map_flatMap, C12_walker_exact]
+
+/-- non-vacuity: an emit in the initialiser of an annotated `let`, one under `?` inside an `else` block, one as the
+    argument of a closure call (not a documented placement: not found) -/
+example :
+    occSs (.cons (.letS none (some (cl!"sent", .path .nil)) (some (.mcall (.path [cl!"app"]) cl!"emit" (.cons (.lit cl!"str" cl!"job-progress") (.cons (.path [cl!"u"]) .nil)))))
+          (.cons (.expr (.ifE .nil (.cons (.block (.cons (.expr (.try (.mcall (.path [cl!"window"]) cl!"emit_to"
+              (.cons (.lit cl!"str" cl!"main") (.cons (.lit cl!"str" cl!"job-finished") (.cons (.lit cl!"bool" cl!"true") .nil)))))) .nil)) .nil)))
+          (.cons (.expr (.call (.path [cl!"spawn"]) (.cons (.other (.cons (.mcall (.path [cl!"app"]) cl!"emit" (.cons (.lit cl!"str" cl!"hidden") (.cons (.lit cl!"int" cl!"1") .nil))) .nil)) .nil)))
+          .nil)))
+      = [cl!"job-progress", cl!"job-finished"] := by decide +kernel
 
 /-- the events module has exactly one listener declaration per analysed event, subscribed to exactly its name
     (`listen<…>('name', …)`), named `on` + PascalCase of the name -/
